@@ -127,6 +127,7 @@ func loadWorld(repo string, cfg Config) (*World, error) {
 	} else {
 		w.CG = vta.CallGraph(all, chaG)
 	}
+	w.discoverRefRoles()
 	return w, nil
 }
 
@@ -141,6 +142,9 @@ func rootFn(fn *ssa.Function) *ssa.Function {
 func fnName(fn *ssa.Function) string {
 	if fn == nil {
 		return "<nil>"
+	}
+	if a, ok := roleAlias[fn]; ok {
+		return a // a role found structurally under another source name (roles_ref.go)
 	}
 	if fn.Parent() != nil {
 		return fnName(fn.Parent()) + "$" + strings.TrimPrefix(fn.Name(), fn.Parent().Name()+"$")
